@@ -326,3 +326,87 @@ def guard_truth(fn, bb, cond_re):
         if re.search(cond_re, str(c)):
             return t
     return None
+
+
+def is_min_of(fn, op, a_re, b_re):
+    """Semantic `value = min(a, b)` (value <= a and value <= b, and value is one of them), independent of syntax:
+       * a call Ord::min / cmp::min / <int>::min over operands matching a_re and b_re (either order), or
+       * a comparison + select: every definition of the value (following copies) is an operand matching a_re or b_re and
+         the block of that definition is dominated by the branch fact `chosen <= other` (or `<`).
+    Returns (ok, description)."""
+    e = fn.expr(op)
+    if e.k == "call" and re.search(r"(^|::)min$", e.a[0]) and len(e.a[1]) == 2:
+        s = [str(x) for x in e.a[1]]
+        ok = (re.search(a_re, s[0]) and re.search(b_re, s[1])) or (re.search(a_re, s[1]) and re.search(b_re, s[0]))
+        return bool(ok), "%s(%s, %s)" % (e.a[0], s[0][:60], s[1][:60])
+    defs = phi_defs(fn, op) if isinstance(op, list) else [(None, e)]
+    if len(defs) < 2:
+        return False, "neither a min() call nor a guarded select: %s" % str(e)[:120]
+    seen = set()
+    for bb, d in defs:
+        s = str(d)
+        if bb is None:
+            return False, "unguarded alternative %s" % s[:80]
+        facts = A.cmp_facts(fn, bb)
+        if re.search(a_re, s) and not re.search(b_re, s):
+            if not A.has_fact(facts, "<=", a_re, b_re):
+                return False, "alternative `%s` is chosen without the fact a <= b" % s[:60]
+            seen.add("a")
+        elif re.search(b_re, s) and not re.search(a_re, s):
+            if not A.has_fact(facts, "<=", b_re, a_re):
+                return False, "alternative `%s` is chosen without the fact b <= a" % s[:60]
+            seen.add("b")
+        else:
+            return False, "alternative `%s` is neither operand" % s[:80]
+    return seen == {"a", "b"}, "select: a when a <= b, b when b <= a (%d definitions)" % len(defs)
+
+
+def agg_fields(e, name_re):
+    """First aggregate sub-expression whose type name matches name_re -> {field: E} (else None)."""
+    for x in e.walk():
+        if x.k == "agg" and re.search(name_re, x.a[0]):
+            return dict(x.a[1])
+    return None
+
+
+def account_roots(e, base=r"ctx\.accounts"):
+    """Names of the accounts-struct fields an expression is derived from ({'escrow'} for any unwrapping of ctx.accounts.escrow)."""
+    return set(re.findall(base + r"\.([a-z_0-9]+)", str(e)))
+
+
+def closure_view(prog, parent, cfn):
+    """Exit expressions of closure `cfn` rendered independently of local names: closure parameters become $1, $2, ..
+    and captured variables `^name` are replaced by the parent's expression for the captured value in <..>.
+    Returns list of strings (one per exit)."""
+    env = {}
+    for bb, si, s in parent.statements():
+        rv = s[2] if s[0] == "=" else None
+        if rv and rv[0] == "agg" and rv[1] == "closure" and rv[2] == cfn.id:
+            e = parent._rvalue_expr(rv, 0, ())
+            names = e.a[2] if len(e.a) > 2 else ()
+            for nm, v in zip(names, e.a[1]):
+                env[str(nm).lstrip("^")] = str(v)
+    params = {}
+    for i in range(1, cfn.arg_count):
+        nm = cfn.locals[i + 1][1]
+        if nm:
+            params[nm] = "$%d" % i
+    out = []
+    for _, _, e in cfn.exits():
+        out.append(subst_names(str(e), env, params))
+    return out
+
+
+def subst_names(s, env, params):
+    for k in sorted(env, key=len, reverse=True):
+        s = s.replace("^" + k, "<%s>" % env[k])
+    for nm, rep in params.items():
+        s = re.sub(r"(?<![\w^.$])%s(?![\w])" % re.escape(nm), lambda m, rep=rep: rep, s)
+    return s
+
+
+def closure_writes(prog, parent, cfn, path_re=r"."):
+    """Stores of a closure with parameter names normalised: [(path, value)]"""
+    params = {cfn.locals[i + 1][1]: "$%d" % i for i in range(1, cfn.arg_count) if cfn.locals[i + 1][1]}
+    return [(subst_names(w["path"], {}, params), subst_names(str(w["rv"]), {}, params))
+            for w in A.field_writes(cfn, path_re) if w["kind"] == "assign"]
